@@ -11,7 +11,7 @@ P1  differential run per shape template: real Pipeline(nodes).process(Payload(da
 from __future__ import annotations
 
 import os
-from typing import Any, Dict, List
+from typing import Optional, Any, Dict, List
 
 from vt import refmodel, shapes
 from vt.runner import Fail, Ob
@@ -34,7 +34,14 @@ def setup_symbolic() -> None:
 
 
 # --------------------------------------------------------------------------------------------- U1
-def _u1(in_cfg: bool, in_ctx: bool, has_default: bool, v_cfg: int, v_ctx: int):
+def _same(a, b) -> bool:
+    if a is None or b is None:
+        return a is None and b is None
+    return bool(a == b)
+
+
+def _u1(in_cfg: bool, in_ctx: bool, has_default: bool, v_cfg: Optional[int], v_ctx: Optional[int]):
+    """values range over int and None: a channel that HOLDS the name with value None still wins over later channels."""
     from semantiva.context_processors import ContextType
     from semantiva.pipeline._param_resolution import resolve_runtime_value
     from vt import lib
@@ -49,11 +56,11 @@ def _u1(in_cfg: bool, in_ctx: bool, has_default: bool, v_cfg: int, v_ctx: int):
             return Fail("C01.U1:keyerror-though-resolvable", "KeyError although a channel holds the value")
         return True
     if in_cfg:
-        return True if got == v_cfg else Fail("C01.U1:config-not-first", "config value not returned")
+        return True if _same(got, v_cfg) else Fail("C01.U1:config-not-first", "config value not returned")
     if in_ctx:
-        return True if got == v_ctx else Fail("C01.U1:context-not-second", "context value not returned (got %r)" % (got,))
+        return True if _same(got, v_ctx) else Fail("C01.U1:context-not-second", "context value not returned (got %r)" % (got,))
     if has_default:
-        return True if got == 7 else Fail("C01.U1:default-wrong", "default not returned")
+        return True if _same(got, 7) else Fail("C01.U1:default-wrong", "default not returned")
     return Fail("C01.U1:no-keyerror", "unresolvable parameter did not raise")
 
 
